@@ -107,8 +107,10 @@ class FakeSnowflakeCursor:
         """
 
         describe = f"DESCRIBE {command}"
-        self.execute(describe, *args, **kwargs)
-        return describe_as_result_metadata(self.fetchall())
+        # use a separate tuple cursor so this works for dict cursors too, and doesn't replace this cursor's result set
+        with self._conn.cursor() as cur:
+            cur.execute(describe, *args, **kwargs)
+            return describe_as_result_metadata(cur.fetchall())
 
     @property
     def description(self) -> list[ResultMetadata]:
